@@ -240,8 +240,9 @@ func vcrEntries(h *harness) []*entry {
 			url := fmt.Sprintf("https://status.example.com/list/%d", listN.Add(1))
 			body := in.data
 			if parts := bytes.Split(in.data, []byte(".")); len(parts) == 3 {
-				if claims, err := b64.DecodeString(string(parts[1])); err == nil && bytes.Contains(claims, []byte(listURLPlaceholder)) {
-					body = atk.signCompact(mustDecode(parts[0]), bytes.ReplaceAll(claims, []byte(listURLPlaceholder), []byte(url)))
+				hdr, err0 := b64.DecodeString(string(parts[0]))
+				if claims, err := b64.DecodeString(string(parts[1])); err == nil && err0 == nil && bytes.Contains(claims, []byte(listURLPlaceholder)) {
+					body = atk.signCompact(hdr, bytes.ReplaceAll(claims, []byte(listURLPlaceholder), []byte(url)))
 				}
 			}
 			f.rt.set(url, http.StatusOK, "application/json", []byte(mustJSON(string(body))))
